@@ -227,23 +227,16 @@ public:
 
     IndexType getIndexFromBoxPos(const std::array<long int,Dim>& inBoxPos) const{
         IndexType index = 0x0LL;
-        IndexType mask = 0x1LL;
 
-        bool shouldContinue = false;
-
-        std::array<IndexType,Dim> mcoord;
+        long int allBits = 0;
         for(long int idxDim = 0 ; idxDim < Dim ; ++idxDim){
-            mcoord[idxDim] = (inBoxPos[idxDim] << (Dim - idxDim - 1));
-            shouldContinue |= ((mask << (Dim - idxDim - 1)) <= mcoord[idxDim]);
+            allBits |= inBoxPos[idxDim];
         }
 
-        while(shouldContinue){
-            shouldContinue = false;
-            for(long int idxDim = Dim-1 ; idxDim >= 0 ; --idxDim){
-                index |= (mcoord[idxDim] & mask);
-                mask <<= 1;
-                mcoord[idxDim] <<= (Dim-1);
-                shouldContinue |= ((mask << (Dim - idxDim - 1)) <= mcoord[idxDim]);
+        // Interleave bit by bit (dim 0 is the most significant inside each group of Dim bits)
+        for(long int idxBit = 0 ; (allBits >> idxBit) != 0 ; ++idxBit){
+            for(long int idxDim = 0 ; idxDim < Dim ; ++idxDim){
+                index |= (((inBoxPos[idxDim] >> idxBit) & IndexType(1)) << (idxBit*Dim + (Dim - idxDim - 1)));
             }
         }
 
